@@ -18,7 +18,7 @@ MANIFEST = {
                      "functions of Mutex/Signal/Monitor, deadline arithmetic incl. C's 64-bit semantics, constants and shapes regenerated from the "
                      "current sources on every run and proved equal to what the model does) + controlled-scheduler correspondence "
                      "(real sources over a simulated POSIX layer, identical schedules replayed on the model)",
-        "text": "59 theorems (Props.lean 40, PropsLock.lean 3, PropsCfg.lean 8, PropsDeadline.lean 8), none partial.  SAFETY over every reachable state of the Lean transition systems (a schedule is the universally quantified list "
+        "text": "64 theorems (Props.lean 41, PropsLock.lean 3, PropsCfg.lean 12, PropsDeadline.lean 8), none partial.  SAFETY over every reachable state of the Lean transition systems (a schedule is the universally quantified list "
                 "of (thread, action) choices; spurious wake-ups, EINTR, ENOSYS, time-outs and clock ticks at any moment; unboundedly many "
                 "threads): mutex_exclusive_reentrant, mutex_recursion_depth_counted, trylock_nonblocking_succeeds_when_free, sem_conservation, "
                 "sem_trywait_never_blocks, sem_wait_step_accounting (a call consumes at most one unit and exactly when it returns true; false = nothing consumed and for the timed wait not before its deadline; "
@@ -30,14 +30,14 @@ MANIFEST = {
                 "timed_false_only_after_deadline_{signal,monitor,semaphore} (semaphore: incl. the polling fallback for every ENOSYS budget), join_returns_result, "
                 "thread_join_exactly_once, thread_start_refused_while_attached (fixes/sync/0002), thread_runs_started_function, Thr.finished_stable, "
                 "thread_dtor_waits_and_failed_start_is_clean, sleep_not_early, driver_stays_within_model.  LIVENESS over infinite runs: "
-                "sem_waiter_eventually_returns, sem_waiter_returns_if_enough_signals, sem_closed_system_all_waiters_return (weak fairness; sem_timedwait not reporting ENOSYS to that waiter), signal_waiter_eventually_returns, signal_every_waiter_eventually_returns and "
+                "sem_waiter_eventually_returns, sem_waiter_returns_if_enough_signals, sem_closed_system_all_waiters_return (weak fairness; sem_timedwait not reporting ENOSYS to that waiter), sem_poller_eventually_returns (a thread inside the ENOSYS fallback returns: weak fairness + virtual time diverges), signal_waiter_eventually_returns, signal_every_waiter_eventually_returns and "
                 "monitor_set_eventually_releases_a_waiter (weak fairness + starvation-free mutex [+ clients release the monitor]); "
                 "whatif_signal_consumed_by_timed_out_waiter_loses_a_wakeup, monitor_two_sets_may_release_only_one_waiter (reachable counter-example states).  "
                 "TRANSLATED FROM THE CURRENT SOURCES ON EVERY RUN (a source the translators do not recognise is a broken tie): "
-                "(a) tools/areas/_sync_cfg.py parses the 13 member functions of Mutex/Signal/Monitor (POSIX branch; small C++ subset) and executes them symbolically into canonical POSIX-level control-flow tables (Generated/SyncCfg.lean: pending call; per call result x flag value the flag store and the next call / returned value; equivalent control flow gives the same table); "
-                "mutex/signal/monitor_step_is_translated_code and signal/monitor_reachable_steps_follow_translated_code prove that EVERY step of Mutex.step / Signal.step / Monitor.step that completes a POSIX call does exactly what the table prescribes, translated_tables_have_no_other_program_points that the tables have no further program points; "
+                "(a) tools/areas/_sync_cfg.py parses 20 member functions — all of Mutex, Signal, Monitor, Semaphore::signal/wait/tryWait, Thread::start (both overloads; start(proc,param) inlined into the member overload), join, ~Thread (join inlined) — (POSIX branch; small C++ subset) and executes them symbolically into canonical POSIX-level control-flow tables (Generated/SyncCfg.lean: pending call; per call result x flag value [Thread: handle set?] the flag store, whether the functor is stored, and the next call / returned value; equivalent control flow gives the same table); "
+                "mutex/signal/monitor/thread_step_is_translated_code, sem_simple_step_is_translated_code and signal/monitor_reachable_steps_follow_translated_code prove that EVERY step of Mutex.step / Signal.step / Monitor.step / Thr.step (and the three simple Sem program points) that completes a POSIX call or begins an API call does exactly what the table prescribes (Thread: on an attached object start returns false without storing the functor - fixes/sync/0002), translated_tables_have_no_other_program_points that the tables have no further program points; "
                 "(b) the deadline statements of the three timed waits (Generated/SyncDeadline.lean): deadline_exact_{signal,monitor,semaphore}, deadline_model_is_translated_code over unbounded Int, and deadline_64bit_no_overflow_exact_{signal,monitor,semaphore} over the same statements with C's LP64 semantics (truncating / %, every arithmetic node range-checked): for EVERY 64-bit time-out and clock < 9e18 s no signed overflow / division by zero, result = clock + timeout ms exactly, |tv_nsec| < 1e9, and for time-outs >= 0 normalised and equal to the unbounded version; "
-                "(c) shape and constants of Semaphore::wait(timeout)'s sem_timedwait loop + ENOSYS polling loop (Generated/SyncSemPoll.lean; Sem.poll_sleep_covers_step, poll_start_zero, poll_step_pos are proved about the extracted constants); "
+                "(c) Semaphore::wait(timeout) after the deadline statements: its own table type (calls ending with an errno class ok/EINTR/ENOSYS/other, continue, goto, usleep, one counted loop whose test i < timeout is symbolic: decision trees with a counter operation) - sem_timed_wait_step_is_translated_code / _entry_: every step at twait / pollTry / pollSleep follows the table (a goto-free rewrite gives the identical table); the constants start / stepMs / sleepUs of the model are read off that table (Generated/SyncSemPoll.lean; Sem.poll_sleep_covers_step, poll_start_zero, poll_step_pos are proved about them); "
                 "(d) what the Guards forward to, mutex kinds, initial flag / count of the constructors, the unit factor of Thread::sleep (Generated/SyncApi.lean; guards_and_constructors_as_modelled, Sleep.sleep_unit_covers_ms; the model's Mutex.init, Sleep.step and the driver's Guard mapping USE these values); destructors, Thread::Thread/~Thread, yield, getCurrentThreadId are shape-pinned; (e) the order of Monitor::set (Generated/SyncMonitorOrder.lean).  "
                 "CORRESPONDENCE RUN: the unmodified Mutex/Semaphore/Signal/Monitor/Thread.cpp are compiled against a simulated POSIX layer (-include shim) and driven by "
                 "a controlled scheduler; all schedules of generated 2-4 thread scenarios up to N scheduling points (every candidate "
@@ -52,7 +52,7 @@ MANIFEST = {
                 "consume a signal, semaphore with EINTR / ENOSYS (budgeted), usleep returns once its time has passed, create/join, monotone virtual clock; no CLOCK_REALTIME jumps, "
                 "time-outs >= 0 in the transition systems (negative ones only in deadline_64bit_*), pthread_create fails at most a budgeted number of times); glibc/kernel are not verified.  "
                 "The control-flow tables tie WHICH call follows which result and what happens to the flag; the EFFECT of each POSIX call on mutex / wait set / semaphore / clock is the assumed layer, and the mapping program counter -> table node (Signal.at, Monitor.at, *.completes in PropsCfg.lean) is part of the statement.  "
-                "HAND-TRANSLATED and only tied by the correspondence run + shape pins: Semaphore (its three simple functions are single calls; the two loops of wait(timeout) are pinned token by token, so any rewrite of them is reported as a broken tie), Thread::start/join/~Thread (Thr system).  "
+                "HAND-TRANSLATED and only tied by the correspondence run: Thread::proc<T>; the representation of the functor; which POSIX call / which outcome a model alternative stands for (Sem.outcome, *.completes).  "
                 "int overflow of the poll loop variable (`int i` against an int64 time-out > 2^31 ms, reached after 24 days of polling) is outside the model.  "
                 "The liveness theorems for Semaphore exclude ENOSYS for the waiter in question (a poller needs the passage of time; its termination is sem_enosys_fallback_never_blocks_and_terminates, a per-step statement).  "
                 "unlock() by a thread that does not hold the Mutex / Monitor is outside the contract: the model has no step for it.  "
@@ -527,44 +527,46 @@ def _const_int(text):
     return v
 
 
-def translate_sem_poll_shape(repo):
-    """Semaphore::wait(int64 timeout), POSIX branch, after the deadline arithmetic: the text must be EXACTLY (up to formatting,
-    comments and the names of the loop variable / label)
+def _load_cfg():
+    import importlib.util
+    spec = importlib.util.spec_from_file_location("_sync_cfg", str(Path(__file__).with_name("_sync_cfg.py")))
+    G = importlib.util.module_from_spec(spec)
+    spec.loader.exec_module(G)
+    return G
 
-        for(;;) { if(sem_timedwait((sem_t*)data, &ts) == -1) { if(errno == EINTR) continue; if(errno == ENOSYS) goto L; return false; } return true; }
-        L: for(int I = A; I < timeout; I += B) { if(sem_trywait((sem_t*)data) != -1) return true; usleep(C); } return false;
 
-    which is what `Sem.step` (Model.lean) transcribes at the program points `twait`, `pollTry`, `pollSleep`; the constants A, B
-    (milliseconds) and C (microseconds, a constant expression) are returned.  Anything else is refused."""
-    src = _strip_comments((Path(repo) / "src/Semaphore.cpp").read_text())
-    param, body = _function_body(src, "Semaphore")
-    body = _posix_branch(body)
-    m = re.search(r"\bfor\s*\(", body)
-    if not m:
-        raise TransErr("Semaphore::wait(int64): retry loop around sem_timedwait not found")
-    text = _norm(body[m.start():])
-    P = re.escape(param)
-    shape = (r"for \( ; ; \) \{ if \( sem_timedwait \( \( sem_t \* \) data , & ts \) == - 1 \) \{ "
-             r"if \( errno == EINTR \) continue ; if \( errno == ENOSYS \) goto (?P<L>\w+) ; return false ; \} return true ; \} "
-             r"(?P=L) : for \( int (?P<I>\w+) = (?P<A>[^;]+?) ; (?P=I) < " + P + r" ; (?P=I) \+= (?P<B>[^)]+?) \) \{ "
-             r"if \( sem_trywait \( \( sem_t \* \) data \) != - 1 \) return true ; usleep \( (?P<C>[^;]+) \) ; \} return false ;")
-    mm = re.fullmatch(shape, text)
-    if not mm:
-        raise TransErr("Semaphore::wait(int64): the loop around sem_timedwait / the ENOSYS polling loop is not of the transcribed form: " + text[:160])
-    if mm.group("I") in (param, "ts", "data", "errno"):
-        raise TransErr("Semaphore::wait(int64): loop variable shadows " + mm.group("I"))
-    return _const_int(mm.group("A")), _const_int(mm.group("B")), _const_int(mm.group("C")), text
+def sem_wait_table(repo):
+    """the control-flow table of Semaphore::wait(int64) after the deadline arithmetic (tools/areas/_sync_cfg.py: sem_table)"""
+    G = _load_cfg()
+    se = _strip_comments((Path(repo) / "src/Semaphore.cpp").read_text())
+    hm, body = _method_body(se, r"\bbool\s+Semaphore\s*::\s*wait\s*\(\s*int64\s+(\w+)\s*\)", "Semaphore::wait(int64)")
+    try:
+        body = G.strip_deadline(body, "Semaphore::wait(int64)")
+        return body, G.sem_table(body, "Semaphore::wait(int64)", hm.group(1)), G
+    except G.CfgErr as e:
+        raise TransErr(str(e))
 
 
 def translate_poll(repo=None):
+    """the constants of the ENOSYS polling loop, read off the translated control-flow table of Semaphore::wait(int64): the loop
+    variable's initial value (counter operation on the ENOSYS edge of sem_timedwait), its increment (counter operation after
+    usleep) and the usleep argument.  A source without exactly that structure is refused."""
     try:
-        a, b, c, text = translate_sem_poll_shape(repo or C.REPO)
+        text, (entry, nodes), _ = sem_wait_table(repo or C.REPO)
+        inits = [es["ENOSYS"][0] for c, es in nodes if c == "semTimedWait" and es.get("ENOSYS") is not None]
+        sleeps = [(c[1], es["ok"][0]) for c, es in nodes if isinstance(c, tuple) and es.get("ok") is not None]
+        if len(inits) != 1 or inits[0] is None or inits[0][0] != "init":
+            raise TransErr("Semaphore::wait(int64): no counted polling loop entered after ENOSYS")
+        if len(sleeps) != 1 or sleeps[0][1] is None or sleeps[0][1][0] != "add":
+            raise TransErr("Semaphore::wait(int64): the polling loop does not consist of one usleep followed by the loop increment")
+        a, b, c = inits[0][1], sleeps[0][1][1], sleeps[0][0]
     except (OSError, TransErr) as e:
         return False, str(e)
     out = ("/- generated by tools/areas/sync.py (translate_poll) from src/Semaphore.cpp - do not edit -/\n"
            "namespace Nstd.Generated.SyncSemPoll\n\n"
-           "/-- `Semaphore::wait(int64 timeout)` after the deadline arithmetic (shape checked by the translator, constants extracted):\n"
-           f"    `{text}` -/\n"
+           "/-- `Semaphore::wait(int64 timeout)`, the polling loop `for(int i = start; i < timeout; i += stepMs) { sem_trywait; usleep(sleepUs); }`:\n"
+           "    constants read off the translated control-flow table (Generated/SyncCfg.lean `semaphore_waitT`; the source text is quoted there,\n"
+           "    not here, so that this file - imported by Model.lean - only changes when a constant changes) -/\n"
            f"def start : Nat := {a}\n\n"
            "/-- the loop increment: milliseconds accounted per iteration -/\n"
            f"def stepMs : Nat := {b}\n\n"
@@ -772,10 +774,7 @@ CFG_FUNCTIONS = [  # (Lean name, file, regex of the function head, strip the dea
 
 def translate_cfg(repo=None):
     """the POSIX-level control-flow tables of the member functions of Mutex / Signal / Monitor (tools/areas/_sync_cfg.py)"""
-    import importlib.util
-    spec = importlib.util.spec_from_file_location("_sync_cfg", str(Path(__file__).with_name("_sync_cfg.py")))
-    G = importlib.util.module_from_spec(spec)
-    spec.loader.exec_module(G)
+    G = _load_cfg()
     repo = Path(repo or C.REPO)
     out = ["import Nstd.Sync.Cfg",
            "/- generated by tools/areas/sync.py (translate_cfg, tools/areas/_sync_cfg.py) from src/{Mutex,Signal,Monitor}.cpp - do not edit -/",
@@ -817,6 +816,10 @@ def translate_cfg(repo=None):
             tab = G.table(body, what, G.ThreadParser)
             n += len(tab[1])
             out.append(G.lean_fn(name, f"`{what}` (POSIX branch; flag = the handle `thread` is set): `{body}`", tab))
+        # Semaphore::wait(int64): errno classes, goto, the counted polling loop (decision trees over `i < timeout`)
+        b_sw, stab, _ = sem_wait_table(repo)
+        n += len(stab[1])
+        out.append(G.lean_sem_fn("semaphore_waitT", f"`Semaphore::wait(int64)` after the deadline arithmetic (POSIX branch): `{b_sw}`", stab))
     except (OSError, TransErr, G.CfgErr) as e:
         return False, str(e)
     out.append("end Nstd.Generated.SyncCfg")
@@ -824,15 +827,15 @@ def translate_cfg(repo=None):
     GEN_CFG.parent.mkdir(parents=True, exist_ok=True)
     if not GEN_CFG.exists() or GEN_CFG.read_text() != text:
         GEN_CFG.write_text(text)
-    return True, f"{len(CFG_FUNCTIONS) + 4} member functions, {n} program points"
+    return True, f"{len(CFG_FUNCTIONS) + 5} member functions, {n} program points"
 
 
 def gen(ctx):
     parts = [("deadline arithmetic of the timed waits -> Nstd/Generated/SyncDeadline.lean: ", translate()),
              ("order of Monitor::set -> Nstd/Generated/SyncMonitorOrder.lean: ", translate_order()),
-             ("shape and constants of the sem_timedwait loop + ENOSYS polling loop -> Nstd/Generated/SyncSemPoll.lean: ", translate_poll()),
+             ("constants of the ENOSYS polling loop, read off the table of Semaphore::wait(int64) -> Nstd/Generated/SyncSemPoll.lean: ", translate_poll()),
              ("Guards, constructors, destructors, Thread::sleep/yield/getCurrentThreadId -> Nstd/Generated/SyncApi.lean: ", translate_api()),
-             ("control-flow tables of the member functions of Mutex / Signal / Monitor -> Nstd/Generated/SyncCfg.lean: ", translate_cfg())]
+             ("control-flow tables of the member functions of Mutex / Signal / Monitor / Semaphore / Thread -> Nstd/Generated/SyncCfg.lean: ", translate_cfg())]
     if ctx is not None:
         ctx.cov["translated"] = "; ".join(h + m for h, (o, m) in parts)
     return all(o for _, (o, _) in parts), "; ".join(m for _, (o, m) in parts if not o)
@@ -1509,7 +1512,7 @@ FIXED_SCENARIOS = [
     # the ENOSYS polling fallback of Semaphore::wait(timeout): for(i = 0; i < timeout; i += 10) { sem_trywait; usleep(10 ms) }
     "scen sem 0 5 995000000 5000000 0 1 N:2 T:0:start-1,start-2,signal,join-1,join-2 T:1:twait-25 T:2:twait-0,twait-10",
     "scen sem 1 5 0 10000000 0 0 N:3 T:0:start-1,start-2,join-1,join-2 T:1:twait-20,twait-15 T:2:twait-1,signal",
-    "scen sem 0 1700000000 999999999 3000000 0 2 N:1 T:0:start-1,signal,join-1,trywait T:1:twait-1001",
+    "scen sem 0 1700000000 999999999 3000000 0 2 N:1 T:0:start-1,signal,join-1,trywait T:1:twait-31",
     "scen sem 2 5 0 10000000 0 0 N:2 T:0:start-1,twait-0,join-1 T:1:twait-11,twait-0",
     # Thread::sleep on the virtual clock: usleep(ms * 1000) returns only after the clock has advanced by ms
     "scen thr 0 5 999999000 400000 0 0 T:0:start-1,sleep-1,join-1,sleep-0 T:3:sleep-2",
@@ -1554,7 +1557,7 @@ def check(ctx):
         # 2. exhaustive schedules of the first `depth` scheduling points
         depth = 8 if quick else 12
         cap = 1200 if quick else 30000
-        nscen = 26 if quick else 60
+        nscen = 24 if quick else 54
         scens = [Scen.parse(l) for l in FIXED_SCENARIOS] + [gen_scen(ctx.rng) for _ in range(nscen)]
         if not proof_ok:
             ctx.log("proof stage broken: searching harder for a failing input")
